@@ -161,21 +161,51 @@ def run(rep, ctx):
         dis_all += d
         rep.coverage.setdefault("components", {})["three-way-" + gname] = dict(cases=len(cases), pure_vs_model=npure, disagreements=len(d))
         rep.coverage["evaluations"] = rep.coverage.get("evaluations", 0) + len(cases)
-    core.decide(rep, ctx["proof"], dis_all, fail_all, None)
+    def search(cases):
+        """a tie broke and the three-way family found nothing: compare the engines with each other on the very runs on
+        which an engine left its model - if the engines now disagree there, that run is the failing input"""
+        out, seen = [], 0
+        for c in cases:
+            if not c or "am_b64" not in c:
+                continue
+            am, cx, events = decode_case(c)
+            if any(e[0] in ("at", "start", "stop", "burst") for e in events):
+                continue
+            r = three_way((am, cx, events))
+            for what, sig in compare(am, cx, events, r):
+                out.append(dict(case=common.case_payload(am, "sync+async+pure", cx, events), what=what, signature=sig))
+            seen += 1
+            if seen >= 60:
+                break
+        return out
+    core.decide(rep, ctx["proof"], dis_all, fail_all, search)
     rep.assumptions += ["comparison at quiescence; the start-up entry event differs by design between engines (entry.<id> vs init) and is projected away",
                         "'plain' group: no raise, no history - pure API must agree exactly; 'full' group: documented pure-API gaps are findings"]
 
 
-def replay(payload):
+def decode_case(case):
     import base64, pickle
-    case = payload.get("case")
+    am = pickle.loads(base64.b64decode(case["am_b64"]))
+
+    def _ev(e):
+        if e[0] == "burst":
+            return ("burst", [_ev(x) for x in e[1]])
+        if e[0] == "at":
+            return ("at", e[1], [_ev(x) for x in e[2]])
+        if e[0] in ("start", "stop"):
+            return (e[0],)
+        return (e[0], e[1] if isinstance(e[1], str) else tuple(e[1]), e[2])
+    events = [_ev(e) for e in case["events"]]
+    cx = {int(k): v for k, v in (case.get("ctx") or {}).items()}
+    return am, cx, events
+
+
+def replay(payload):
+    case = payload.get("case") or (payload.get("first_disagreement") or {}).get("case")
     if not case or "am_b64" not in case:
         print("no concrete case:", payload.get("broken"))
         return 1
-    am = pickle.loads(base64.b64decode(case["am_b64"]))
-    events = [tuple(e[:2]) + (e[2],) if e[0] != "burst" else ("burst", [tuple(x) for x in e[1]]) for e in case["events"]]
-    events = [(e[0], e[1] if isinstance(e[1], str) else tuple(e[1]), e[2]) for e in events]
-    cx = {int(k): v for k, v in (case.get("ctx") or {}).items()}
+    am, cx, events = decode_case(case)
     r = three_way((am, cx, events))
     for k in ("sync", "async_"):
         for i, s in enumerate(r.get(k, [])):
